@@ -31,6 +31,9 @@ type Director struct {
 	// timeout, so an unbounded trickle would keep a failing query alive for
 	// minutes (legitimate client behaviour, but unaffordable here).
 	unsolValid atomic.Int32
+	// lag: blocks above the client's filter-header tip whose filter headers
+	// the peers withhold (lag phase).
+	lag atomic.Pointer[[]*chaingen.Node]
 
 	mu          sync.Mutex
 	good        map[int32]int // height -> verifiable cfilter messages handed to the wire
@@ -206,8 +209,32 @@ func (d *Director) Counters(add func(string, int64)) {
 	}
 }
 
+// SetLag starts withholding the filter headers of the given new blocks.
+func (d *Director) SetLag(ns []*chaingen.Node) { d.lag.Store(&ns) }
+
+func (d *Director) withheld(h chainhash.Hash) bool {
+	if l := d.lag.Load(); l != nil {
+		for _, n := range *l {
+			if n.Hash == h {
+				return true
+			}
+		}
+	}
+	return false
+}
+
 // Mutate is installed as netsim.Peer.Mutate.
 func (d *Director) Mutate(p *netsim.Peer, req wire.Message, honest []wire.Message) []wire.Message {
+	switch t := req.(type) {
+	case *wire.MsgGetCFHeaders:
+		if d.withheld(t.StopHash) {
+			return nil
+		}
+	case *wire.MsgGetCFCheckpt:
+		if d.withheld(t.StopHash) {
+			return nil
+		}
+	}
 	gq, ok := req.(*wire.MsgGetCFilters)
 	if !ok {
 		return honest
@@ -228,9 +255,18 @@ func (d *Director) Mutate(p *netsim.Peer, req wire.Message, honest []wire.Messag
 	seq := d.reqSeq.Add(1)
 	rng := rand.New(rand.NewSource(d.seed*31 + seq*1009 + int64(idx)))
 	var out []wire.Message
-	if len(entries) == 0 {
+	switch {
+	case spec.Kind == KLagPush:
+		out = append(out, honest...)
+		if l := d.lag.Load(); l != nil {
+			for _, n := range *l {
+				hash := n.Hash
+				out = append(out, wire.NewMsgCFilter(wire.GCSFilterRegular, &hash, append([]byte(nil), n.FilterBytes...)))
+			}
+		}
+	case len(entries) == 0:
 		out = honest
-	} else {
+	default:
 		out = d.apply(spec, entries, int32(gq.StartHeight), targets, rng)
 	}
 	base := spec.Kind
